@@ -46,12 +46,15 @@ def case_st(draw):
     ratio = st.one_of(st.sampled_from([0.0, 1e-300, 1e-12, 1e-3, 0.5, 1.0, 1.0, 2.0, 1e3, 1e6, 1e9]), log10_floats(-3, 3), st.just("1e300"))
     r1, r2 = draw(ratio), draw(ratio)
     n = draw(st.integers(1, 4))
-    mode = draw(st.sampled_from(["direct", "direct", "end2end", "nodata"]))
+    mode = draw(st.sampled_from(["direct", "direct", "end2end", "nodata", "step"]))
     scheme = draw(st.sampled_from(["forces", "energy"]))
     shape = "scalar" if scheme == "energy" else draw(st.sampled_from(["scalar", "array"]))
     return {"min": lo, "max": hi, "ref": ref, "r1": r1, "r2": r2, "n": n, "mode": mode, "scheme": scheme, "update": draw(st.sampled_from(["tanh", "exp"])),
             "shape": shape, "mu": draw(fl(0.1, 5.0)), "sign": draw(st.sampled_from([-1.0, 1.0])),
-            "retune_ref": draw(st.sampled_from([None, 0.2, 5.0]))}
+            "retune_ref": draw(st.sampled_from([None, 0.2, 5.0])),
+            # mode "step": the adapted delta is read after a whole step() with forces of this size (eV/A); with the
+            # larger ones the bias |F|*delta/2kT saturates (documented clipping of gamma), which is not delta's business
+            "force": draw(st.sampled_from([0.01, 1.0, 1e3, 1e6, 1e12]))}
 
 
 def variance(case, r):
@@ -77,10 +80,19 @@ def delta_for(case, mc, atoms, v):
     mode = case["mode"]
     with warnings.catch_warnings():
         warnings.simplefilter("ignore")
-        if mode == "direct":
+        if mode in ("direct", "step"):
             val = v if case["shape"] == "scalar" else np.full((n, 3), v)
             mc.schemes[case["scheme"]] = lambda a: val
-            mc.update_delta()
+            if mode == "direct":
+                mc.update_delta()
+            else:
+                from vlib.calcs import FastCalc
+
+                f = np.full((n, 3), float(case.get("force", 1.0)))
+                f[:, 1] *= -1.0
+                atoms.calc = FastCalc("constforce", {"forces": f.tolist()})
+                atoms.set_positions([[i * 2.0, 0.0, 0.0] for i in range(n)])
+                mc.step()
         elif mode == "nodata":
             atoms.calc = types.SimpleNamespace(results={})
             if case.get("retune_ref"):
@@ -141,7 +153,7 @@ def run_case(case):
         if v == 0.0 and np.any(np.abs(d - hi) > ulp):
             return viol("zero-variance-not-max", f"variance 0 gives delta {d.tolist()}, expected max_delta")
         # end-to-end: the committee arrays realise the prescribed coefficient only to ~1e-9 (cancellation)
-        mtol = 1e-12 if case["mode"] == "direct" else 1e-6
+        mtol = 1e-12 if case["mode"] in ("direct", "step") else 1e-6
         if v == ref and np.any(np.abs(d - mid) > mtol * mid):
             return viol("reference-not-midpoint", f"variance = reference gives delta {d.tolist()}, expected the midpoint {mid!r}")
         if v >= 1e6 * ref and np.any(d - lo > 1e-6 * (hi - lo) + ulp):
